@@ -5,11 +5,14 @@
   Proved: a cyclic dictionary is rejected with an error and no result; resources the dictionary does not mention are not
   touched by a step; a decomposed resource is removed (and never re-created) or kept with type `other`; each step adds, to every
   target, exactly multiplier × ORIGINAL value of the decomposed resource — linearity, for every commutative-semiring
-  interpretation.  PARTIAL: that the expanded dictionary equals the sum over all decomposition paths (`pathSum`) is checked by
-  the oracle (exact fractions) only.
+  interpretation; the expanded dictionary satisfies the PATH-SUM recurrence W(r,b) = w(r,b) + Σ_t w(r,t)·W(t,b) with only base
+  resources as targets (C15_expansion_is_path_sum, unconditional: Kahn's algorithm as modelled is proved to return a valid order).
+  Not proved: that the cyclic dictionaries are exactly those for which `aggOrder` returns none (completeness of the cycle
+  detection; exercised exhaustively on 3|4 names by the oracle and the correspondence).
 -/
 import BartiqModel.Aggregate
 import BartiqProofs.AggLemmas
+import BartiqProofs.GraphLemmas
 import Mathlib.Algebra.Ring.Defs
 import Mathlib.Tactic.Ring
 namespace Bartiq
@@ -224,20 +227,26 @@ theorem C15_linear_contribution (ev : Expr → R) (hev : RingEval ev) (r : Resou
 
 /-! ### nested dictionaries are fully expanded: the path-sum recurrence -/
 
-/-- **expansion = sum over all decomposition paths**, stated as the recurrence that defines that sum: in the expanded
-    dictionary every decomposed resource `r` maps only to base resources, each once, and gives base resource `b` the weight
-        W(r,b) = w(r,b) + Σ_{t decomposed target of r} w(r,t) · W(t,b)
-    — for every interpretation of the multipliers in a commutative semiring.
-    PARTIAL in one respect: the order returned by the model of `_topological_sort` (Kahn's algorithm, BartiqModel/Graph.lean) is
-    assumed to list each decomposed resource once and after the ones it is decomposed into (`topoOK`, an executable check that the
-    driver evaluates on every dictionary of every run and reports next to the result). -/
-theorem C15_expansion_is_path_sum_partial (ev : Expr → R) (hev : RingEval ev) (d : AggDict)
+/-- the same, for ANY order that passes the executable check `topoOK` (each decomposed resource once, after the ones it is
+    decomposed into) — the form in which the driver re-checks the hypothesis on every dictionary of every run -/
+theorem C15_expansion_along_valid_order (ev : Expr → R) (hev : RingEval ev) (d : AggDict)
     (hD : ∀ r, ((d.get? r).getD []).keys.Nodup) (order : List String)
     (ho : aggOrder d = some order) (ht : topoOK d [] order = true) :
     ∃ E, expandAggregation d = .ok E ∧ ∀ r ∈ order, Expanded ev d E r := by
   refine ⟨_, expandAggregation_eq d order ho, ?_⟩
   have := expFold_spec ev hev d hD order [] [] ht (by intro r hr; cases hr) (by intro r m h; cases h) (by intro r hr; cases hr)
   simpa using this
+
+/-- **expansion = sum over all decomposition paths**, stated as the recurrence that defines that sum: whenever the dictionary
+    is accepted (not cyclic), in the expanded dictionary every decomposed resource `r` maps only to base resources, each once,
+    and gives base resource `b` the weight
+        W(r,b) = w(r,b) + Σ_{t decomposed target of r} w(r,t) · W(t,b)
+    — for every interpretation of the multipliers in a commutative semiring.  The order comes from the model of
+    `_topological_sort` (Kahn's algorithm, proved correct in BartiqProofs/GraphLemmas.lean: `staticOrder_spec`). -/
+theorem C15_expansion_is_path_sum (ev : Expr → R) (hev : RingEval ev) (d : AggDict)
+    (hD : ∀ r, ((d.get? r).getD []).keys.Nodup) (order : List String) (ho : aggOrder d = some order) :
+    ∃ E, expandAggregation d = .ok E ∧ ∀ r ∈ order, Expanded ev d E r :=
+  C15_expansion_along_valid_order ev hev d hD order ho (aggOrder_topoOK d order ho)
 
 /-- the entry order inside each decomposition is irrelevant for the weights: they are determined by the recurrence alone, which
     only looks values up by name (`dval`) -/
